@@ -1,6 +1,6 @@
 (* Property C05 - throttling bounds recorded frames by the token bucket in every interval. *)
 From Coq Require Import List ZArith Bool.
-From TR Require Import model.Throttle model.ThrottleSpec proofs.BucketProofs proofs.ThrottleProofs.
+From TR Require Import model.Throttle model.ThrottleSpec proofs.BucketProofs proofs.ThrottleProofs proofs.ThrottleSec model.ThrExt proofs.TieCorollaries.
 Import ListNotations.
 Open Scope Z_scope.
 
@@ -33,6 +33,34 @@ Theorem C05_seconds : forall cap q fi minframes refill_ns n a b,
     n <= cap + 1 + q * ((b - a) / fi + 1) ->
     (n - (cap + 1 + q)) * refill_ns * 1000000000 <= 1010000001 * minframes * (b - a).
 Proof. exact window_seconds. Qed.
+
+(* The property in its own units, for every request sequence: with the quantum the library
+   chooses for every rate below ~10^7 frames/s (q = 1; checked against the real bucket on
+   every run together with rate_ok), every window [a, b] of frames that reach the wrapped
+   recorder holds at most  bucket_frames + 2 + 1.010000001 * (minFrames / minRefill) * (b - a)
+   frames.  This predicate (S05sec) is also evaluated on every implementation trace, from the
+   configured sizes alone. *)
+Theorem C05_property_units : forall cap fi minlen faults us minframes refill_ns,
+    1 <= cap -> 1 <= fi -> 0 <= minframes -> 0 < refill_ns ->
+    rate_ok 1 fi minframes refill_ns = true ->
+    monotone us = true ->
+    S05sec cap minframes refill_ns (thsteps cap 1 fi minlen faults us) = true.
+Proof. exact S05sec_holds. Qed.
+
+(* The same two statements about the Gallina translation of throttle/throttled_recorder.go as it
+   is in /repo now (coq/translated/ThrottledRecorder.v, regenerated on every run; the token bucket,
+   the wrapped recorder, the listener and the clock are the calls that leave it, model/ThrExt.v):
+   a change to that file that lets more frames through on some schedule breaks these theorems. *)
+Theorem C05_ticks_source : forall cap q fi minlen faults us,
+    1 <= cap -> 1 <= q -> 1 <= fi -> monotone us = true ->
+    S05 cap q fi (src_thsteps cap q fi minlen faults us) = true.
+Proof. exact S05_source. Qed.
+
+Theorem C05_property_units_source : forall cap fi minlen faults us minframes refill_ns,
+    1 <= cap -> 1 <= fi -> 0 <= minframes -> 0 < refill_ns ->
+    rate_ok 1 fi minframes refill_ns = true -> monotone us = true ->
+    S05sec cap minframes refill_ns (src_thsteps cap 1 fi minlen faults us) = true.
+Proof. exact S05sec_source. Qed.
 
 (* non-vacuity: the bound is reached *)
 Example C05_tight :
